@@ -11,7 +11,8 @@ From Unimock Require Export Model.Base.
 (* ------------------------------------------------------------------ *)
 
 (* receivers as written in the trait *)
-Inductive receiver := RcvRef | RcvMut | RcvOwned | RcvRc | RcvArc | RcvBox | RcvPin.
+(* RcvTypedRef / RcvTypedMut: the typed spellings `self: &Self` / `self: &mut Self` *)
+Inductive receiver := RcvRef | RcvMut | RcvOwned | RcvRc | RcvArc | RcvBox | RcvPin | RcvTypedRef | RcvTypedMut.
 
 (* method.rs: enum Receiver, fn receiver(): a typed receiver is Pin when its last
    path segment is `Pin<..>`, otherwise Owned (Rc/Arc/Box<Self>, self) *)
@@ -21,7 +22,7 @@ Definition receiver_of (r : receiver) : mreceiver :=
   | RcvRef => MRef
   | RcvMut => MMutRef
   | RcvPin => MPin
-  | RcvOwned | RcvRc | RcvArc | RcvBox => MOwned
+  | RcvOwned | RcvRc | RcvArc | RcvBox | RcvTypedRef | RcvTypedMut => MOwned
   end.
 
 (* parameter classes of the grammar (the Rust type written for the parameter) *)
